@@ -122,12 +122,15 @@ func c11Step(x *engine.Exec) []engine.Failure {
 		x.Cnt.Inc("tx.reward_payout")
 	}
 	// supply queries report the supply net of the alliance-bonded amount
-	bonded := math.ZeroInt()
+	// the alliance-bonded amount as the system defines it: the module's token value summed over BONDED validators, truncated
+	// once (GetAllianceBondedAmount sums 18-digit decimals and truncates the sum)
+	bondedSum := new(big.Rat)
 	for v := range ns.Bonded {
 		if ns.Bonded[v] {
-			bonded = bonded.Add(math.NewIntFromBigInt(world.Floor(ns.ModTokens[v])))
+			bondedSum.Add(bondedSum, ns.ModTokens[v])
 		}
 	}
+	bonded := math.NewIntFromBigInt(world.Floor(bondedSum))
 	wantSupply := ns.Supply.Sub(bonded)
 	if res, err := w.App.BankKeeper.SupplyOf(x.Next.Ctx, &banktypes.QuerySupplyOfRequest{Denom: "stake"}); err != nil || !res.Amount.Amount.Equal(wantSupply) {
 		out = append(out, fail("supply-query", "", "after %s: SupplyOf(stake) = %v (err %v), bank supply %s minus alliance-bonded %s = %s", x.Op.String(), res, err, ns.Supply, bonded, wantSupply))
@@ -155,10 +158,38 @@ func init() {
 					Required: []string{"tx.alliance", "block.rebalanced_up", "block.rebalanced_down", "real_slash", "supply_query.with_alliance_bonded", "tx.reward_payout"},
 				}
 			}
-			if tier == "thorough" {
-				return []*engine.Scenario{mk("c11-virtual-stake", []int{2, 1, 3, 4, 1}, 8)}
+			// all reward weights zero while the module still has bonded stake (mid-block after the governance update, and
+			// sub-unit remainders after real slashes): the supply queries must stay net
+			zcfg := world.DefaultConfig()
+			zcfg.FullPipeline = true
+			zcfg.Assets = []world.AssetCfg{{Denom: "aaa", Weight: "1", Min: "0", Max: "5", TakeRate: "0"}}
+			zseed := []world.Op{opDel(0, 0, "aaa", "1000000"), opDel(1, 1, "aaa", "500000"), opDel(1, 2, "aaa", "700000"), opBlock(1)}
+			zops := func(n *engine.Node) []world.Op {
+				var ops []world.Op
+				for _, w := range []string{"0", "1.3"} {
+					ops = append(ops, world.Op{K: world.KGovUpdate, Denom: "aaa", Class: ClsGov, Args: govArgs("authority", w, "0,5", "0", "1", 0, false)})
+				}
+				for v, f := range []string{"0.05", "0.01", "0.07"} {
+					ops = append(ops, world.Op{K: world.KSlash, V: v, F: f, Class: ClsSlash})
+				}
+				ops = append(ops, world.Op{K: world.KBlock, Dt: int64(U), Class: ClsBlock})
+				return ops
 			}
-			return []*engine.Scenario{mk("c11-virtual-stake", []int{2, 1, 1, 2, 1}, 5)}
+			zero := &engine.Scenario{
+				Property: "C11", Name: "c11-zero-weights", Cfg: zcfg, Stores: world.AllStores,
+				Seeds: [][]world.Op{zseed}, ClassNames: classNames, Budgets: tierPick(tier, []int{0, 3, 0, 3, 2}, []int{0, 3, 0, 4, 2}), MaxDepth: tierPick(tier, 7, 9),
+				Ops: zops, Step: func(x *engine.Exec) []engine.Failure {
+					if !x.Res.Rejected && x.Op.K == world.KGovUpdate && x.Op.Args["w"] == "0" {
+						x.Cnt.Inc("all_weights_zero_with_module_stake")
+					}
+					return c11Step(x)
+				}, SeedStep: true,
+				Required: []string{"all_weights_zero_with_module_stake", "real_slash", "supply_query.with_alliance_bonded"},
+			}
+			if tier == "thorough" {
+				return []*engine.Scenario{mk("c11-virtual-stake", []int{2, 1, 3, 4, 1}, 8), zero}
+			}
+			return []*engine.Scenario{mk("c11-virtual-stake", []int{2, 1, 1, 2, 1}, 5), zero}
 		},
 		Assumptions: []string{
 			"same full-pipeline world and alphabet as C10 plus fee inflow and claims; mint inflation is zero so the net supply (bank supply minus the exact token value of the module's delegations) has a closed form",
